@@ -862,8 +862,8 @@ func tamperStream(s *vStore, ver *common.VersionedTransaction, raw []byte, fork 
 		sigs = append(sigs, as.Signature[:])
 	}
 	for _, m := range tx.SignaturesMap {
-		for _, sg := range m {
-			sigs = append(sigs, sg[:])
+		for _, i := range sortedIdx(m) {
+			sigs = append(sigs, m[i][:])
 		}
 	}
 	for k := 0; k < 3 && len(sigs) > 0; k++ {
